@@ -57,8 +57,9 @@ func runSeq(h *c06.History) (kit.Case, error) {
 			}
 		}
 		outs := make([]string, len(h.Ops))
+		ss := c06.NewSession()
 		for i, o := range h.Ops {
-			outs[i] = c06.Exec(target, clock, o)
+			outs[i] = ss.Exec(target, clock, o)
 			if cached {
 				o.Out = outs[i]
 			}
@@ -115,7 +116,12 @@ func runSeq(h *c06.History) (kit.Case, error) {
 // returned a value (bbolt's plain Get ignores the TTL, so the cache stored the expired row again
 // without an expiry)
 func recachedExpired(h *c06.History, cached, plain []string) bool {
-	if h.Backend != "bbolt" {
+	// ... or, on any backend, the cache started cold over a TTL row written behind it (raw ops)
+	cold := false
+	for _, o := range h.Ops {
+		cold = cold || o.Raw
+	}
+	if h.Backend != "bbolt" && !cold {
 		return false
 	}
 	for j := range cached {
